@@ -48,7 +48,9 @@ func (adapter *Adapter) Run(ctx context.Context) {
 
 func (adapter *Adapter) runOnce(ctx context.Context, logger *zap.Logger) (err error) {
 	defer func() {
-		if err != nil && errors.Is(err, context.Canceled) {
+		// context.Canceled is a clean exit only if the runtime context is done: a controller which fails
+		// with an error wrapping context.Canceled (e.g. a sub-operation it canceled itself) has failed
+		if err != nil && errors.Is(err, context.Canceled) && ctx.Err() != nil {
 			err = nil
 		}
 
